@@ -130,6 +130,36 @@ def run(chk):
                                              'same_func': sc['same_func'], 'idle_workers_possible': any(op.get('n', 99) < sc['pool']['n_jobs'] for op in sc['ops'][1:-1])})
     for sc, o in zip(ka, kobs):
         ka_judge(chk, sc, o)
+    # apply submissions with hooks and a task limit: a worker whose task is interrupted by the limit lives on and runs more tasks —
+    # still one worker_init per instance (before its first task) and one worker_exit (after its last)
+    import collections
+    ah = []
+    for _ in range(40 if chk.tier == 'quick' else 600):
+        nj = rng.choice([1, 2])
+        k = rng.randint(3, 7)
+        slow = sorted(rng.sample(range(k), rng.randint(1, 2)))
+        if rng.random() < .6 and 0 not in slow:
+            slow = [0] + slow[:1]          # often the very first task of an instance is the one that is interrupted
+        ah.append({'seed': rng.randint(0, 10 ** 6), 'pool': {'n_jobs': nj, 'start_method': 'fork', 'use_worker_state': True}, 'relax_shape': True,
+                   'ops': [{'op': 'apply_batch', 'tasks': [{'idx': i, 'gap': 0.02} for i in range(k)], 'init': True, 'exit': True, 'task_timeout': 0.2, 'get_timeout': 30,
+                            'dur': {'kind': 'map', 'map': {str(i): 30.0 for i in slow}, 'default': 0.01}, 'wait_order': list(range(k))},
+                           {'op': 'stop_and_join'}]})
+    aobs = run_scenarios(chk, 'apply submissions with hooks and interrupted tasks: hooks once per instance (DetSim)', ah, {'C03'}, nontrivial=lambda sc, o: True,
+                         dist=lambda sc, o: {'n_jobs': sc['pool']['n_jobs'], 'first_task_interrupted': '0' in sc['ops'][0]['dur']['map']})
+    for sc, o in zip(ah, aobs):
+        if o.get('harness_error') or o.get('stuck') or [x.get('outcome') for x in o.get('ops', [])] != ['ok', 'ok']:
+            continue
+        per = collections.defaultdict(lambda: collections.Counter())
+        for c in o.get('calls', []):
+            per[c[3]][c[1]] += 1
+            if c[1] == 'task' and c[7] is not None:
+                per[c[3]]['task_completed'] += 1
+        # (an instance whose every task was interrupted has completed none: whether it owes a worker_exit is left open)
+        bad = {str(tok): dict(cnt) for tok, cnt in per.items()
+               if cnt.get('task') and (cnt.get('init', 0) != 1 or cnt.get('exit', 0) > 1 or (cnt.get('task_completed') and cnt.get('exit', 0) != 1))}
+        if bad:
+            chk.violation('instance_shape', {'scenario': sc}, {'calls_per_instance': bad}, 'worker_init once before the first task and worker_exit once after the last, per instance',
+                          input_class='hooks_repeated_after_interrupted_task')
     chk.assumptions += ['exit payloads above the pipe capacity are exercised only by the real-process tier']
 
     def search():
